@@ -98,6 +98,7 @@ theorem evalPark_rel (X : (String → Nat → Option DErr) → ExFn) (coll : Str
       cases X (fun _ _ => none) i env row with
       | has b => left; exact ⟨rfl, rfl, rfl⟩
       | failed er => right; exact ⟨er, rfl, Or.inl rfl⟩
+      | swallowed => left; exact ⟨rfl, rfl, rfl⟩
     · rw [he]; right; exact ⟨er, rfl, Or.inr hl⟩
   | caseWhen c t e ihc iht ihe =>
     simp only [parkV, evalV]
